@@ -39,7 +39,7 @@ SPEC = {
             '(internal/reader homeChainPoller, 2 ms polling) over a scripted CCIPHome contract reader and ONE plugin (NewPlugin) on it, kept for the whole '
             'history; 5..8 steps, each changes the chain configs on the contract (a chain given to / taken from an oracle keeping its others, the '
             'destination taken / given, an oracle dropped from / added to every chain, F changed, readers rotated, a chain removed / added (rarely the '
-            'destination), two oracles swapped, a reader of another DON, several at once, or a change whose poll fails) and waits until every poller has '
+            'destination), two oracles swapped, a reader of another DON, several at once, a change whose poll fails, or empty-config: every chain config removed so that a SUCCESSFUL poll answers with an empty first page - the role map is then the empty one; the step after it either brings the old configuration back (the contract answered one empty page) or builds a new role map from nothing) and waits until every poller has '
             'completed a fetch that started after the change; then observations generated against the CURRENT role map are validated on the long-lived '
             'instances (instance 0 always - it has looked every oracle up before every change -, the instance of the step number and a random one; in the first '
             'round every instance validates every oracle): one per oracle (the generator above) plus targeted ones - for every designation just removed an '
